@@ -1,6 +1,6 @@
 #!/usr/bin/env python3
 # Replays every known-finding replay file and reports whether its identity still reproduces.
-import json, subprocess, os, sys
+import json, subprocess, os, sys, re
 k = json.load(open('/verif/known_findings.json'))
 bad = 0
 for f in k['findings']:
@@ -11,4 +11,15 @@ for f in k['findings']:
     ok = ('violation ' + f['identity']) in out.stdout
     print('REPRODUCES' if ok else 'NO', f['identity'], r)
     bad += 0 if ok else 1
+for line in k.get('fixed', []):
+    m = re.search(r'property=(C\d+) .*replay: (findings/[^ ;]+\.json)', line)
+    if not m:
+        continue
+    prop, r = m.group(1), m.group(2)
+    if not os.path.exists('/verif/' + r):
+        print('MISSING', prop, r); bad += 1; continue
+    out = subprocess.run(['./check', prop, '--replay', '/verif/' + r], capture_output=True, text=True, cwd='/verif')
+    quiet = 'no violation reproduced' in out.stdout
+    print('FIXED-STAYS-FIXED' if quiet else 'FIXED-BUT-REPRODUCES', prop, r)
+    bad += 0 if quiet else 1
 sys.exit(1 if bad else 0)
